@@ -117,6 +117,7 @@ type inliner struct {
 	src   map[string][]byte
 	edits map[string][]inlEdit
 	notes []string
+	seq   int
 }
 
 func (in *inliner) source(name string) []byte {
@@ -301,6 +302,15 @@ func (in *inliner) paramEdits(b *inlBody, callerFile string, args []ast.Expr, lo
 		return nil, false
 	}
 	var es []inlEdit
+	selX := map[*ast.Ident]bool{} // p in p.F
+	ast.Inspect(b.body, func(n ast.Node) bool {
+		if se, ok := n.(*ast.SelectorExpr); ok {
+			if id, ok := se.X.(*ast.Ident); ok {
+				selX[id] = true
+			}
+		}
+		return true
+	})
 	ast.Inspect(b.body, func(n ast.Node) bool {
 		id, ok := n.(*ast.Ident)
 		if !ok {
@@ -310,12 +320,17 @@ func (in *inliner) paramEdits(b *inlBody, callerFile string, args []ast.Expr, lo
 		if !isP {
 			return true
 		}
-		t := in.text(callerFile, args[i].Pos(), args[i].End())
+		arg := ast.Unparen(args[i])
+		// p.F with the argument &x is x.F
+		if u, isAddr := arg.(*ast.UnaryExpr); isAddr && u.Op == token.AND && selX[id] {
+			arg = ast.Unparen(u.X)
+		}
+		t := in.text(callerFile, arg.Pos(), arg.End())
 		if t == "" {
 			okAll = false
 			return false
 		}
-		if needsParens(args[i]) {
+		if needsParens(arg) {
 			t = "(" + t + ")"
 		}
 		es = append(es, inlEdit{in.off(id.Pos()), in.off(id.End()), t})
@@ -422,13 +437,17 @@ func (in *inliner) inlineVoid(b *inlBody, callerFile string, call *ast.CallExpr,
 		return false
 	}
 	es = append(es, pe...)
+	// the statements are put in place of the call without a block around them (rules that read
+	// the statement list of the caller find them there); the helper's own variables get names
+	// that cannot clash with the caller's
+	es = append(es, in.renameLocals(b, locals)...)
 	src := in.source(b.file)
 	lo, hi := in.off(b.body.Lbrace)+1, in.off(b.body.Rbrace)
 	if src == nil || lo > hi || hi > len(src) {
 		return false
 	}
 	bodyText := applyEdits(src[lo:hi], lo, es)
-	text := fmt.Sprintf("{\n//line %s:%d\n%s}\n//line %s:%d\n", b.file, in.line(b.body.Lbrace), bodyText, callerFile, in.line(stmt.End()))
+	text := fmt.Sprintf("\n//line %s:%d\n%s\n//line %s:%d\n", b.file, in.line(b.body.Lbrace), bodyText, callerFile, in.line(stmt.End()))
 	in.edits[callerFile] = append(in.edits[callerFile], inlEdit{in.off(stmt.Pos()), in.off(stmt.End()), text})
 	in.notes = append(in.notes, fmt.Sprintf("%s inlined at %s:%d", b.name, relName(in.p, callerFile), in.line(stmt.Pos())))
 	return true
@@ -571,23 +590,7 @@ func (in *inliner) inlineGuarded(b *inlBody, callerFile string, call *ast.CallEx
 		return dbgFalse(14)
 	}
 	// the helper's own variables get names that cannot clash with the caller's
-	suffix := "_" + b.name[strings.LastIndex(b.name, ".")+1:]
-	ast.Inspect(b.body, func(n ast.Node) bool {
-		id, ok := n.(*ast.Ident)
-		if !ok || id.Name == "_" {
-			return true
-		}
-		o := in.info.Defs[id]
-		if o == nil {
-			o = in.info.Uses[id]
-		}
-		if o != nil && locals[o] {
-			if v, isVar := o.(*types.Var); !isVar || !v.IsField() {
-				es = append(es, inlEdit{in.off(id.Pos()), in.off(id.End()), id.Name + suffix})
-			}
-		}
-		return true
-	})
+	es = append(es, in.renameLocals(b, locals)...)
 	es = append(es, pe...)
 	src := in.source(b.file)
 	lo, hi, end := in.off(b.body.Lbrace)+1, in.off(final.Pos()), in.off(final.End())
@@ -644,6 +647,30 @@ func (in *inliner) inlineGuarded(b *inlBody, callerFile string, call *ast.CallEx
 	in.edits[callerFile] = append(in.edits[callerFile], inlEdit{in.off(s1.Pos()), in.off(endPos), text})
 	in.notes = append(in.notes, fmt.Sprintf("%s inlined at %s:%d (failure returns become the caller's failure branch)", b.name, relName(in.p, callerFile), in.line(s1.Pos())))
 	return true
+}
+
+// renameLocals: edits that give every object declared inside the helper's body a suffixed name.
+func (in *inliner) renameLocals(b *inlBody, locals map[types.Object]bool) []inlEdit {
+	var es []inlEdit
+	in.seq++
+	suffix := fmt.Sprintf("_%s%d", b.name[strings.LastIndex(b.name, ".")+1:], in.seq)
+	ast.Inspect(b.body, func(n ast.Node) bool {
+		id, ok := n.(*ast.Ident)
+		if !ok || id.Name == "_" {
+			return true
+		}
+		o := in.info.Defs[id]
+		if o == nil {
+			o = in.info.Uses[id]
+		}
+		if o != nil && locals[o] {
+			if v, isVar := o.(*types.Var); !isVar || !v.IsField() {
+				es = append(es, inlEdit{in.off(id.Pos()), in.off(id.End()), id.Name + suffix})
+			}
+		}
+		return true
+	})
+	return es
 }
 
 func roleKey(pkg, owner, name string) string { return pkg + "|" + owner + "|" + name }
@@ -725,6 +752,7 @@ func (p *Program) inlineOverlay() (map[string][]byte, []string) {
 			}
 			return b, args, true
 		}
+		inlinedCalls := map[*ast.FuncDecl]int{}
 		for _, fd := range AllFuncDecls(pkg) {
 			if fd.Body == nil || strings.HasSuffix(fileName(fd.Pos()), "-generated.go") {
 				continue
@@ -855,6 +883,7 @@ func (p *Program) inlineOverlay() (map[string][]byte, []string) {
 						if hd := declOf[fn]; fn != nil && hd != fd && isNewHelper(hd) && (hd.Type.Results == nil || len(hd.Type.Results.List) == 0) {
 							if b, args, ok := helperBody(hd, call); ok && in.inlineVoid(b, callerFile, call, s, args) {
 								done[st] = true
+								inlinedCalls[hd]++
 							}
 						}
 					case *ast.AssignStmt:
@@ -877,6 +906,7 @@ func (p *Program) inlineOverlay() (map[string][]byte, []string) {
 						if b, args, ok := helperBody(hd, call); ok && in.inlineGuarded(b, callerFile, call, s, s2, args) {
 							done[st] = true
 							done[list[i+1]] = true
+							inlinedCalls[hd]++
 						}
 					}
 				}
@@ -891,6 +921,30 @@ func (p *Program) inlineOverlay() (map[string][]byte, []string) {
 				default:
 					in.edits[callerFile] = append(in.edits[callerFile], inlEdit{in.off(lit.End()), in.off(lit.End()), "; _ = " + def.Lhs[0].(*ast.Ident).Name})
 				}
+			}
+		}
+		// a helper all of whose uses were inlined is not declared any more: the rules would read
+		// its body a second time, as a function nobody calls
+		for hd, k := range inlinedCalls {
+			obj := in.info.Defs[hd.Name]
+			uses := 0
+			for _, q := range p.All {
+				if q.TypesInfo == nil {
+					continue
+				}
+				for _, o := range q.TypesInfo.Uses {
+					if o == obj {
+						uses++
+					}
+				}
+			}
+			if uses == k {
+				from := hd.Pos()
+				if hd.Doc != nil {
+					from = hd.Doc.Pos()
+				}
+				file := fileName(hd.Pos())
+				in.edits[file] = append(in.edits[file], inlEdit{in.off(from), in.off(hd.End()), fmt.Sprintf("\n//line %s:%d\n", file, in.line(hd.End()))})
 			}
 		}
 		for name, es := range in.edits {
